@@ -172,6 +172,14 @@ def directed(default_params):
                       {"op": "rename.gen", "slot": 0, "route": route},
                       {"op": "rename.gen", "slot": 0, "route": route}]
     out.append(("einstein-powers", P, steps))
+    # one request mixing indices with and without spin, the spin at every position
+    steps = []
+    for names in (["i", "j"], ["a", "b", "c"], ["k3", "l3"], ["p", "i", "a"]):
+        for pattern in itertools.product(["", "a", "b"], repeat=len(names)):
+            for via in ("get_symbols", "get_indices"):
+                steps.append({"op": "reg.get", "names": names, "spins": list(pattern),
+                              "via": via})
+    out.append(("mixed-spin-positions", dict(P, spin_mode=True), steps))
     # the same contracted indices with target indices of the same names but other spins
     steps = []
     for base_t, contr in ((["i"], ["j:a"]), (["i", "j"], ["k:a"]), (["a", "i"], ["k:a", "c:b"]),
